@@ -73,6 +73,8 @@ def make_trace(mode: str, detail: str, name: str = "trace"):
         return None
     if mode == "file":
         return JsonlTraceDriver(f"{name}.ser.jsonl", detail=detail)
+    if mode == "cwd":
+        return JsonlTraceDriver(None, detail=detail)     # default: timestamped file in the current directory
     return JsonlTraceDriver(f"{name}_dir", detail=detail)
 
 
